@@ -172,3 +172,18 @@ M('get_waveforms_store_ignores_ids', ['C03'], 'phylib/io/model.py',
 M('cbin_iter_last_chunk_dup', ['C03', 'C16'], 'phylib/io/traces.py',
   "        yield reader.chunk_bounds[last_chunk], reader.chunk_bounds[last_chunk + 1]",
   "        yield reader.chunk_bounds[max(0, last_chunk - 1)], reader.chunk_bounds[last_chunk + 1]")
+# ---- C05 -----------------------------------------------------------------------------------
+M('best_channels_ascending', ['C05'], 'phylib/io/model.py',
+  "        order = np.argsort(amplitude[channel_ids])[::-1]\n", "        order = np.argsort(amplitude[channel_ids])\n")
+M('shank_restriction_dropped', ['C05'], 'phylib/io/model.py',
+  "            close_channels = np.intersect1d(close_channels, channels_on_shank)\n", "            pass\n")
+M('unwhiten_with_wm', ['C05', 'C09'], 'phylib/io/model.py',
+  "    def _unwhiten(self, x, channel_ids=None):\n        mat = self.wmi\n", "    def _unwhiten(self, x, channel_ids=None):\n        mat = self.wmi.T\n")
+M('sparse_channels_not_reordered', ['C05'], 'phylib/io/model.py',
+  "            channel_ids=channel_ids[channels_reordered],\n", "            channel_ids=channel_ids,\n")
+M('closest_channels_l1', ['C05'], 'phylib/io/model.py',
+  "    d = (x - x0) ** 2 + (y - y0) ** 2\n", "    d = np.abs(x - x0) + (y - y0) ** 2\n")
+M('threshold_strict', ['C05'], 'phylib/io/model.py',
+  "        peak_channels = np.nonzero(amplitude >= amplitude_threshold * max_amp)[0]", "        peak_channels = np.nonzero(amplitude > amplitude_threshold * max_amp * 0.999)[0]")
+M('sparse_signal_free_kept', ['C05'], 'phylib/io/model.py',
+  "        has_signal = template_max > template_max.max() * 1e-6\n", "        has_signal = template_max >= 0\n")
